@@ -286,7 +286,7 @@ func check(prop, tier string, writeLock bool, filter string) int {
 		smtDir = filepath.Join(verifDir, "tmp-smt")
 		_ = os.MkdirAll(smtDir, 0o755)
 	}
-	dischargeAll(obls, smtDir, timeout, seed, 16, tier == "thorough")
+	dischargeAll(obls, smtDir, timeout, seed, 8, tier == "thorough")
 
 	known := loadKnown()
 	isKnown := func(full string) *knownFinding {
